@@ -600,6 +600,28 @@ func Execute(sc *Scenario) *Result {
 	if res.Returned && sr.pan == nil {
 		r.oracles(sr.st, sr.err, payload, stopped, fail)
 	}
+	if res.Returned {
+		// aftermath: a finished Send (cancelled or not) holds nothing: the thresholds of its type can be set again
+		// and a further Send on the same Broker returns
+		fin := make(chan struct{})
+		go func() {
+			defer close(fin)
+			t := eventlogger.EventType(sc.SendType)
+			if thr, ok := b.SuccessThreshold(t); ok {
+				b.SetSuccessThreshold(t, thr)
+			}
+			if ths, ok := b.SuccessThresholdSinks(t); ok {
+				b.SetSuccessThresholdSinks(t, ths)
+			}
+			b.Send(context.Background(), "aftermath: a type nobody registered", 1)
+			b.IsAnyPipelineRegistered(t)
+		}()
+		select {
+		case <-fin:
+		case <-time.After(4 * time.Second):
+			fail("C03", "after this Send had returned (cancel=%+v), setting the type's thresholds again / a further Send on the same Broker did not return within 4s: the finished Send still holds a lock", sc.Cancel)
+		}
+	}
 	return res
 }
 
